@@ -95,6 +95,20 @@ def pool(rng):
     return vals
 
 
+def erase(v):
+    """Forget the difference between str, path and bytes with one encoding, and between an
+    empty sequence and the empty string; keep the nesting."""
+    k = v[0]
+    if k in ("str", "path"):
+        s = v[1] if k == "str" else __import__("pathlib").Path(v[1]).__str__()
+        return ("b", s.encode().hex())
+    if k == "bytes":
+        return ("b", v[1])
+    if k in ("tuple", "list"):
+        return ("b", "") if not v[1] else ("seq", tuple(erase(x) for x in v[1]))
+    return tuple(map(str, v))
+
+
 def py_equal_kind(a, b):
     return a[0] == b[0]
 
@@ -131,16 +145,18 @@ def run(out, tier, seed, proof):
     mstate = {}
     for v, i, m in zip(vals, impl0, model):
         groups.setdefault(str(i.get("h")), []).append((v, i))
-        mstate[str(v)] = str(m)
+        mstate[str(v)] = str(m[0]) if not m[1] else eval_sym(m[1])
     for h, g in groups.items():
         for (a, ia), (b, ib) in itertools.combinations(g, 2):
             if a == b or not py_equal_kind(a, b):
                 continue
             if ia["pyhash"] is not None and ia["pyhash"] == ib["pyhash"]:
                 continue
-            # the known finding explains exactly the collisions of the undelimited concatenation,
-            # i.e. those the faithful model has too
-            fid = ("F4",) if a[0] in ("tuple", "list") and mstate[str(a)] == mstate[str(b)] else ()
+            # known findings explain exactly the collisions the faithful model has too: F18 when the two
+            # values differ only in str/bytes/path kind or empty-sequence vs empty string, F4 otherwise
+            fid = ()
+            if a[0] in ("tuple", "list") and mstate[str(a)] == mstate[str(b)]:
+                fid = ("F18",) if erase(a) == erase(b) else ("F4",)
             out.violation("two different values of one kind have the same state", {"a": a, "b": b, "state": h}, finding_matchers=fid)
     # signatures
     paths = ["/p/a.txt", "/p/b.txt", "/p/sub/a.txt", "/p/a.txt2", "/q/a.txt"]
